@@ -1,12 +1,13 @@
 import OpusProofs.SilkSymsIndices
 import OpusProofs.SilkSymsPulses
 import OpusProofs.FramingSafe
+import OpusProofs.SilkSymsFrozenEq
 /-
   C03: lifting of the per-call range lemmas to everything `silk_Decode` / `opus_decode_frame` /
   `opus_decode_native` emit, and totality of the packet-level model (no `.oob`, no `.abort`).
 -/
 namespace Opus.SilkSymsProofs
-open Opus Opus.RangeCoder Opus.SilkSyms Opus.Gen.SilkIcdf
+open Opus Opus.RangeCoder Opus.SilkSyms Opus.SilkSymsFrozen.Icdf
 
 /-- What is guaranteed about each observable event of the symbol layer. -/
 def EvOk : Ev → Prop
